@@ -7,6 +7,7 @@ import (
 	"go/printer"
 	"go/token"
 	"go/types"
+	"path/filepath"
 	"strings"
 
 	"golang.org/x/tools/go/packages"
@@ -24,12 +25,18 @@ import (
 //	swtoif   switch { case a: A; case b: B; default: D }  ->  if a {A} else if b {B} else {D}   (tagless, no fallthrough/break)
 //	derange  for _, x := range xs {B}  ->  for i := range xs { x := xs[i]; B }   (slices)
 //	elseafter  if c {A; return}; B  ->  if c {A; return} else {B}
+//	adddefer   every function starts with `defer func() {}()` (a deferred call, a recover block in SSA)
+//	addcall    every function starts with a call of a no-op function and calls it before every return (logging/tracing)
+//	revdecl    the function declarations of every file in reverse order
+//	revcases   the clauses of switches over constants and of type switches over concrete types in reverse order
+//	tmpreturn  return f(x)  ->  t0, t1 := f(x); return t0, t1
 func Metamorph(repo string, tags []string, kind string) (map[string][]byte, int, error) {
 	p, err := Load(LoadConfig{Dir: repo, Tags: tags, NoSSA: true})
 	if err != nil {
 		return nil, 0, err
 	}
 	overlay := map[string][]byte{}
+	nopFor := map[string]string{}
 	changed := 0
 	for _, pk := range p.KetoPackages() {
 		if skipMetamorphPkg(pk.PkgPath) {
@@ -77,6 +84,19 @@ func Metamorph(repo string, tags []string, kind string) (map[string][]byte, int,
 				n = mmDerange(f, pk)
 			case "elseafter":
 				n = mmElseAfter(f)
+			case "adddefer":
+				n = mmAddDefer(f)
+			case "addcall":
+				n = mmAddCall(f)
+				if n > 0 {
+					nopFor[filepath.Dir(name)] = f.Name.Name
+				}
+			case "revdecl":
+				n = mmReverseDecls(f)
+			case "revcases":
+				n = mmReverseCases(f, pk)
+			case "tmpreturn":
+				n = mmTmpReturn(f, pk)
 			default:
 				return nil, 0, fmt.Errorf("unknown transformation %q", kind)
 			}
@@ -90,6 +110,9 @@ func Metamorph(repo string, tags []string, kind string) (map[string][]byte, int,
 			overlay[name] = buf.Bytes()
 			changed += n
 		}
+	}
+	for dir, pkgName := range nopFor {
+		overlay[filepath.Join(dir, "zz_mm_nop.go")] = []byte("package " + pkgName + "\n\n// mmNop stands for a logging / tracing / metrics call.\nfunc mmNop(args ...interface{}) {}\n")
 	}
 	return overlay, changed, nil
 }
@@ -435,4 +458,191 @@ func mmElseAfter(f *ast.File) int {
 		return true
 	})
 	return n
+}
+
+func mmAddDefer(f *ast.File) int {
+	n := 0
+	for _, d := range f.Decls {
+		fd, ok := d.(*ast.FuncDecl)
+		if !ok || fd.Body == nil {
+			continue
+		}
+		st := &ast.DeferStmt{Call: &ast.CallExpr{Fun: &ast.FuncLit{Type: &ast.FuncType{Params: &ast.FieldList{}}, Body: &ast.BlockStmt{}}}}
+		fd.Body.List = append([]ast.Stmt{st}, fd.Body.List...)
+		n++
+	}
+	return n
+}
+
+// eachList calls fix on every statement list of the file (bodies, blocks, clauses).
+func eachList(f *ast.File, fix func([]ast.Stmt) []ast.Stmt) {
+	ast.Inspect(f, func(nd ast.Node) bool {
+		switch x := nd.(type) {
+		case *ast.BlockStmt:
+			x.List = fix(x.List)
+		case *ast.CaseClause:
+			x.Body = fix(x.Body)
+		case *ast.CommClause:
+			x.Body = fix(x.Body)
+		}
+		return true
+	})
+}
+
+func mmAddCall(f *ast.File) int {
+	n := 0
+	call := func() ast.Stmt {
+		return &ast.ExprStmt{X: &ast.CallExpr{Fun: ast.NewIdent("mmNop")}}
+	}
+	eachList(f, func(list []ast.Stmt) []ast.Stmt {
+		var out []ast.Stmt
+		for _, st := range list {
+			if _, ok := st.(*ast.ReturnStmt); ok {
+				out = append(out, call())
+				n++
+			}
+			out = append(out, st)
+		}
+		return out
+	})
+	for _, d := range f.Decls {
+		if fd, ok := d.(*ast.FuncDecl); ok && fd.Body != nil {
+			fd.Body.List = append([]ast.Stmt{call()}, fd.Body.List...)
+			n++
+		}
+	}
+	return n
+}
+
+func mmReverseDecls(f *ast.File) int {
+	var idx []int
+	for i, d := range f.Decls {
+		if fd, ok := d.(*ast.FuncDecl); ok && !(fd.Recv == nil && fd.Name.Name == "init") {
+			idx = append(idx, i)
+		}
+	}
+	if len(idx) < 2 {
+		return 0
+	}
+	fns := make([]ast.Decl, len(idx))
+	for k, i := range idx {
+		fns[len(idx)-1-k] = f.Decls[i]
+	}
+	for k, i := range idx {
+		f.Decls[i] = fns[k]
+	}
+	return len(idx)
+}
+
+func mmReverseCases(f *ast.File, pk *packages.Package) int {
+	info := pk.TypesInfo
+	n := 0
+	rev := func(body *ast.BlockStmt) {
+		for i, j := 0, len(body.List)-1; i < j; i, j = i+1, j-1 {
+			body.List[i], body.List[j] = body.List[j], body.List[i]
+		}
+		n++
+	}
+	ast.Inspect(f, func(nd ast.Node) bool {
+		switch x := nd.(type) {
+		case *ast.SwitchStmt:
+			if x.Tag == nil || len(x.Body.List) < 2 {
+				return true
+			}
+			for _, c := range x.Body.List {
+				cc := c.(*ast.CaseClause)
+				if hasBreakOrFallthrough(cc.Body) {
+					return true
+				}
+				for _, e := range cc.List {
+					if tv, ok := info.Types[e]; !ok || tv.Value == nil {
+						return true // not a constant: evaluation order could matter
+					}
+				}
+			}
+			rev(x.Body)
+		case *ast.TypeSwitchStmt:
+			if len(x.Body.List) < 2 {
+				return true
+			}
+			for _, c := range x.Body.List {
+				cc := c.(*ast.CaseClause)
+				if hasBreakOrFallthrough(cc.Body) {
+					return true
+				}
+				for _, e := range cc.List {
+					tv, ok := info.Types[e]
+					if !ok || tv.Type == nil {
+						return true
+					}
+					if tv.IsNil() {
+						continue
+					}
+					if _, isIface := tv.Type.Underlying().(*types.Interface); isIface {
+						return true // interface cases can overlap: first match wins
+					}
+				}
+			}
+			rev(x.Body)
+		}
+		return true
+	})
+	return n
+}
+
+func mmTmpReturn(f *ast.File, pk *packages.Package) int {
+	info := pk.TypesInfo
+	n := 0
+	eachList(f, func(list []ast.Stmt) []ast.Stmt {
+		var out []ast.Stmt
+		for _, st := range list {
+			rs, ok := st.(*ast.ReturnStmt)
+			if !ok || len(rs.Results) != 1 {
+				out = append(out, st)
+				continue
+			}
+			call, ok := unparenExpr(rs.Results[0]).(*ast.CallExpr)
+			if !ok {
+				out = append(out, st)
+				continue
+			}
+			tv, ok := info.Types[call]
+			if !ok || tv.Type == nil || tv.IsType() {
+				out = append(out, st)
+				continue
+			}
+			if ftv, ok := info.Types[call.Fun]; ok && ftv.IsType() {
+				out = append(out, st) // a conversion
+				continue
+			}
+			k := 1
+			if tup, ok := tv.Type.(*types.Tuple); ok {
+				k = tup.Len()
+			}
+			if k == 0 {
+				out = append(out, st)
+				continue
+			}
+			var lhs, res []ast.Expr
+			for i := 0; i < k; i++ {
+				name := fmt.Sprintf("mmR%d_%d", n, i)
+				lhs = append(lhs, ast.NewIdent(name))
+				res = append(res, ast.NewIdent(name))
+			}
+			out = append(out, &ast.AssignStmt{Lhs: lhs, Tok: token.DEFINE, Rhs: []ast.Expr{call}}, &ast.ReturnStmt{Results: res})
+			n++
+		}
+		return out
+	})
+	return n
+}
+
+func unparenExpr(e ast.Expr) ast.Expr {
+	for {
+		p, ok := e.(*ast.ParenExpr)
+		if !ok {
+			return e
+		}
+		e = p.X
+	}
 }
